@@ -1,5 +1,39 @@
-import QipVerif.Util.Proto
-/-! Driver stub (to be filled in by the owner of this model). -/
-open QipVerif.Proto
-def step (_line : String) : String := "bad-op"
+import QipVerif.Util.GateIO
+import QipVerif.Gen.GateDefsF
+/-! Driver for the exact gate library and exact denotation (C09, C01, C03 share it).
+
+* `gate name=NAME n8=K`          → `ok m e|rows` exact compact matrix of the gate with angle K·π/8
+                                    (entries as 8 integer coordinates in the basis 1,ζ,…,ζ⁷, ζ = e^{iπ/8}; value / 2^e)
+* `gatef fn=FUNC args=b1,b2,..`  → `ok rows` the generated float rendering of gate function FUNC at the
+                                    given arguments (IEEE bit patterns as decimal integers, in and out)
+* `den k=K gates=<list>`         → `ok e|rows` exact unitary of a fixed-angle circuit on K qubits | `none`
+-/
+open QipVerif QipVerif.Proto QipVerif.GateIO
+
+def step (line : String) : String :=
+  let fs := fields line
+  match fs.head? with
+  | some "gate" =>
+    match fStr? fs "name", fInt? fs "n8" with
+    | some n, some k =>
+      match gateE (GName.ofString n) k with
+      | some (m, d) => s!"ok {m} " ++ showDMat d
+      | none => "none"
+    | _, _ => "bad-op"
+  | some "gatef" =>
+    match fStr? fs "fn", (fNats? fs "args") with
+    | some fn, some bits =>
+      match Gen.GF.eval fn (bits.map fun b => Float.ofBits (UInt64.ofNat b)) with
+      | some m => "ok " ++ ";".intercalate (m.map fun r => ",".intercalate (r.map fun c => s!"{c.re.toBits.toNat}:{c.im.toBits.toNat}"))
+      | none => "none"
+    | _, _ => "bad-op"
+  | some "den" =>
+    match fNat? fs "k", (fStr? fs "gates").bind gates? with
+    | some k, some gs =>
+      match denE k gs with
+      | some d => "ok " ++ showDMat d
+      | none => "none"
+    | _, _ => "bad-op"
+  | _ => "bad-op"
+
 def main : IO Unit := serve step
